@@ -57,7 +57,10 @@ def layout(rng, records, style=None):
 def rand_name(rng, i):
     base = rng.choice(["q", "seq", "hCoV-19/x", "s|1", "A.1"]) + str(i)
     if rng.random() < 0.3:
-        base += " " + rng.choice(["desc", "some text here", "x=1\ty"])
+        # any run of Unicode-free ASCII white space ends the ID (strings.Fields): space, tab, VT, FF, and mixtures
+        base += rng.choice([" ", " ", "\t", "  ", "\t ", " \t", "\x0b", "\x0c"]) + rng.choice(["desc", "some text here", "x=1\ty", "a\tb c"])
+    if rng.random() < 0.05:
+        base = rng.choice([" ", "\t"]) + base
     return base
 
 
